@@ -818,6 +818,7 @@ func (g *generator) enterNextFinallyFrame() (canContinue bool) {
 
 func (g *generator) step() (res Value, resultType resultType, ex *Exception) {
 	vm := g.vm
+resumed:
 	if g.returning == nil {
 		for {
 			ex = vm.runTryInner()
@@ -837,6 +838,15 @@ func (g *generator) step() (res Value, resultType resultType, ex *Exception) {
 					// The exception was thrown in the outermost finally block, it never got to leaveFinally
 					// which does popTryFrame()
 					vm.popTryFrame()
+				}
+				if len(vm.tryStack) > int(g.tryStackLen) {
+					// A throw completion from a finally block replaces the pending return completion. The generator
+					// still has enclosing try statements of its own: the exception is theirs to handle (their
+					// catch / finally blocks must run) and execution continues as an ordinary resumption.
+					g.returning = nil
+					if ex = vm.handleThrow(ex); ex == nil {
+						goto resumed
+					}
 				}
 				return
 			}
